@@ -76,6 +76,15 @@ CHECKS = {
     design_ref="DESIGN.md section 6 (C12)", note=_MEM_NOTE,
     technique="Coq proofs: loop invariants (rolling-hash algebra, bit-level Shift-Or state, chunk scan) + differential correspondence (results, load/step traces)",
  ),
+ "C14": dict(
+    text="Props/C14.v: the model returns Ok (never Panic) for memmem::find/rfind, Finder/FinderRev for every prefilter configuration, ranker and CPU, "
+         "all constructors for EVERY needle (Two-Way preprocessing indices and subtractions, pair selection asserts), byte search and iterators on "
+         "every backend, Rabin-Karp with any finder, Two-Way (under its certificate), and PrefilterState::is_effective from ANY state "
+         "(C14_prestate_no_overflow; tied to the source by the obligation C14_saturating_multiply); packed-pair find panics exactly below "
+         "min_haystack_len (C14_packedpair_panic_exact). Panics are first-class in the model: idx, csub, checked multiply, guard.",
+    design_ref="DESIGN.md sections 6 (C14) and 7.1", note=_MEM_NOTE,
+    technique="Coq proof: every result theorem has the form '= Ok ...' over a model with explicit panics; checked-arithmetic obligation on the prefilter state + debug/overflow-check build under catch_unwind",
+ ),
  "C18": dict(
     text="Theorems C18_is_equal / C18_is_prefix / C18_is_suffix / C18_is_equal_raw (coq/Props/C18.v) prove for all byte "
          "lists, lengths and placements that the modelled routines return exactly slice equality / starts_with / ends_with, "
